@@ -136,7 +136,7 @@ pub fn gen_spec(seed: u64, run: u64, fl: MtFlavour) -> MtSpec {
         MtFlavour::Liveness => &[1, 2],
         _ => &[0, 1, 1, 1, 2, 2, 2],
     };
-    let mut cfg = Cfg::random(&mut rng, Some(true), &[Backend::Vec, Backend::Vec, Backend::Anon], freelists);
+    let mut cfg = Cfg::random(&mut rng, Some(true), &[Backend::Vec, Backend::Vec, Backend::Anon, Backend::File], freelists);
     cfg.cap = match rng.below(8) {
         0..=2 => rng.range(96, 256),
         3..=5 => rng.range(200, 640),
